@@ -82,13 +82,25 @@ def bank_model(ctx):
         if isinstance(inner, Op) and inner.op == "|":
             parts = {key(a) for a in inner.args}
         ob2.instance("BankModel.%s" % port, key(val))
-        if not ok or parts != {"lin(ncols*row)", col}:
+        rowreg = [l for l in b.leaves if l.kind == "assign" and l.domain == "sync" and key(l.value) == "activate_row"]
+        rk_ = key(rowreg[0].target) if rowreg else "row"
+        if not ok or parts != {key(Op("*", (Sym("ncols"), Sym(rk_)))), col}:
             ob2.refute("bank-addr:%s" % port, "BankModel.%s = %s, expected (row*ncols | %s)[log2(burst_length*nphases):]" % (port, key(val), col), ds[0].loc)
-    rowl = [l for l in b.leaves if l.kind == "assign" and l.domain == "sync" and key(l.target) == "row"]
-    if not rowl or key(rowl[0].value) != "activate_row" or "activate" not in b.guard_keys(rowl[0], False):
+    # the row register: the sync register loaded from activate_row (whatever it is called)
+    rowl = [l for l in b.leaves if l.kind == "assign" and l.domain == "sync" and key(l.value) == "activate_row"]
+    if not rowl or "activate" not in b.guard_keys(rowl[0], False):
         ob2.refute("row-load", "the bank's row register is not loaded from activate_row on activate", rowl[0].loc if rowl else None)
     else:
         ob2.instance("row load", str(rowl[0]))
+        extra = b.guard_keys(rowl[0], False) - {"activate", "~precharge"}
+        if extra:
+            ob2.refute("row-load-conditional", "the row register is loaded only under %s besides activate: the model has no auto-precharge, so a legal ACT that follows a "
+                       "read/write with auto-precharge (bank still marked active in the model) must overwrite the row - otherwise the bank keeps serving the old row" %
+                       sorted(extra), rowl[0].loc)
+        ROW = key(rowl[0].target)
+        act = [l for l in b.leaves if l.kind == "assign" and l.domain == "sync" and is1(l.value) and b.guard_keys(l, False) - {"~precharge"} == {"activate"}]
+        if not act:
+            ob2.refute("active-set", "no register is set to 1 exactly on activate: the bank never becomes active", rowl[0].loc)
     we = [l for l in b.leaves if l.kind == "assign" and "we" in key(l.target) and isinstance(l.value, V) and "write" in support(l.value)]
     if ob3.need(len(we) >= 1, "write-enable assignment not found"):
         val = we[0].value
